@@ -178,6 +178,12 @@ fn awaited_oracle() -> Oracle {
                     // the next op of this thread tells whether the effect is visible: a read of the same key, or the total
                     // weight right after an accepted delete (no other writer in these programs)
                     if let Some(next) = run.call(c.thread, c.idx + 1) {
+                        if let (Op::TotalWeight, Res::Weight(w), Op::Upsert { k, w: Some(req), .. }, true) = (&next.op, &next.res, &target.op, *st == CommandStatus::Accepted) {
+                            let old = run.obs_init.entry(*k).and_then(|e| run.obs_init.weight_of_id(e.2)).unwrap_or(0);
+                            if *w != run.obs_init.weight_used - old + req {
+                                out.push(Finding::new("accepted-effect-not-visible", "ack:accepted-upsert-weight-not-applied", format!("{} was acknowledged Accepted but total_weight_used() right after the await is {} (before: {}, the key weighed {}, {} requested)", target.op.short(), w, run.obs_init.weight_used, old, req)));
+                            }
+                        }
                         if let (Op::TotalWeight, Res::Weight(w), Op::Delete { k }, true) = (&next.op, &next.res, &target.op, *st == CommandStatus::Accepted) {
                             let released = run.obs_init.entry(*k).and_then(|e| run.obs_init.weight_of_id(e.2)).unwrap_or(0);
                             if *w != run.obs_init.weight_used - released {
@@ -257,6 +263,11 @@ pub fn def(ctx: &Ctx) -> PropertyDef {
         mk("await/evicting-put;await || upsert-weight(a);await", vec![Op::Put { k: 1, w: Some(6), ttl_ms: None }, Op::Put { k: 2, w: Some(4), ttl_ms: None }], vec![vec![Op::Put { k: 3, w: Some(7), ttl_ms: None }, Op::Await { call: 0 }], vec![Op::Upsert { k: 1, value: true, w: Some(5), ttl_ms: None, remove_ttl: false }, Op::Await { call: 0 }]]),
         // an acknowledgement handed out while the cache shuts down resolves too
         mk("await/shutdown || put(b);await", vec![Op::Put { k: 1, w: Some(2), ttl_ms: None }], vec![vec![Op::Shutdown], vec![Op::Put { k: 2, w: Some(2), ttl_ms: None }, Op::Await { call: 0 }]]),
+        // a multi-field upsert: the weight is applied by the time the acknowledgement says accepted
+        mk("await/upsert(v,w,ttl) on a TTL key;await;total_weight", vec![Op::Put { k: 1, w: Some(2), ttl_ms: Some(5000) }, Op::Put { k: 2, w: Some(3), ttl_ms: None }], vec![vec![Op::Upsert { k: 1, value: true, w: Some(4), ttl_ms: Some(9000), remove_ttl: false }, Op::Await { call: 0 }, Op::TotalWeight]]),
+        mk("await/upsert(w,remove ttl) on a TTL key;await;total_weight", vec![Op::Put { k: 1, w: Some(2), ttl_ms: Some(5000) }, Op::Put { k: 2, w: Some(3), ttl_ms: None }], vec![vec![Op::Upsert { k: 1, value: false, w: Some(4), ttl_ms: None, remove_ttl: true }, Op::Await { call: 0 }, Op::TotalWeight]]),
+        // a time-to-live of zero under a clock that stands still: accepted means stored and charged
+        mk("await/put_ttl(k, 0);await;get;total_weight", vec![], vec![vec![Op::Put { k: 1, w: Some(2), ttl_ms: Some(0) }, Op::Await { call: 0 }, Op::Read { k: 1, variant: ReadVariant::Get }, Op::TotalWeight]]),
         mk("await/delete;await;total_weight", vec![Op::Put { k: 1, w: Some(2), ttl_ms: None }, Op::Put { k: 2, w: Some(3), ttl_ms: None }], vec![vec![Op::Delete { k: 1 }, Op::Await { call: 0 }, Op::TotalWeight]]),
         mk("await/delete;await;total_weight /ttl", vec![Op::Put { k: 1, w: Some(2), ttl_ms: Some(5000) }, Op::Put { k: 2, w: Some(3), ttl_ms: None }], vec![vec![Op::Delete { k: 1 }, Op::Await { call: 0 }, Op::TotalWeight]]),
         // the status an acknowledgement resolves to is the command's real outcome: a duplicate queued behind its twin
